@@ -49,6 +49,7 @@ def gen_watcher(rng, name, profile):
         w["hooks"] = hooks
     if rng.random() < 0.06:
         w["max_age"] = 1
+        w["max_age_variance"] = rng.choice([0, 1, 2, 30])
     if rng.random() < profile.get("on_demand", 0.12):
         w["on_demand"] = True
     return w
@@ -140,6 +141,9 @@ def gen_request(rng, v, rid, profile):
         m = {"command": case_variant(rng, cmd) if rng.random() < 0.1 else cmd, "id": rid, "properties": props}
         if rng.random() < 0.04:
             m["msg_type"] = "cast"
+        if rng.random() < 0.06 and not props.get("waiting"):
+            # any JSON value is an id, the falsy ones included; the reply has to carry it back as it came
+            m["id"] = rng.choice([0, "", False, [], {}, None, 7, True, [0], {"a": None}])
         return m
     cum = 0.0
 
